@@ -45,10 +45,18 @@ PROP = {'streams': [('c20', 30000, 3000000)],
               'no_panic_policyset_history',
               'no_panic_policyset_merge',
               'unescape_ranges_on_boundaries',
-              'no_panic_unescape_slices'],
+              'no_panic_unescape_slices',
+              'no_panic_remove_empty_lines',
+              'remove_empty_lines_terminates',
+              'no_panic_ext_argument_checks',
+              'ext_argument_check_index_panics_iff',
+              'no_panic_typecheck_extension',
+              'no_panic_display_cedarvaluejson',
+              'display_cedarvaluejson_prefix_panics'],
  'assumptions': ['theorems cover the mirrored components only (wildcard_match, contains_at_least_two, the datetime capture unwraps/slices, '
                  'FromIterator<Value> for Set, the Record arm\'s Expr::record(..).expect, the binary-operator dispatch, the PartialResponse accessors, '
-                 'the PolicySet panic! sites (proved in C08), the unescape ranges/slices); for '
+                 'the PolicySet panic! sites (proved in C08), the unescape ranges/slices, the formatter\'s remove_empty_lines loop, '
+                 'typecheck_extension with the four validate_*_string argument checks, display_cedarvaluejson); for '
                  "every other entry point the evidence is 'no panic on the explored inputs', counted per entry point in coverage.distribution "
                  '(ep.<name>.tried/ok/err)',
                  'data-structure invariants used as hypotheses: the keys of a record expression are pairwise distinct (it holds a BTreeMap) for '
@@ -56,6 +64,14 @@ PROP = {'streams': [('c20', 30000, 3000000)],
                  'no residual keeps a template slot for no_panic_partial_response - this one is NOT guaranteed by the implementation (known '
                  'finding C13-residual-slot-panic, reproduced as theorem partial_response_panic_reachable; debug builds only: the expect is under '
                  'cfg(debug_assertions))',
+                 'remove_empty_lines: the two regex searches are oracles, not modelled; hypotheses = the regex-crate contract of find_at on a &str '
+                 '(a match returned for a search from a char boundary index < len lies at/after index, start <= end, both ends on char '
+                 'boundaries of the text) for no_panic_remove_empty_lines, plus "no empty match" (both patterns start with a literal) for '
+                 'termination; both shown necessary by examples. typecheck_extension: a variadic ExtensionFunctionType has at least one argument '
+                 'type (ExtensionFunction::variadic builds two; ExtensionFunctionType::new is public and does not check it - example reaches '
+                 'last().unwrap() without it); the extension constructor called by the argument checks is a parameter (its own sites: groups b, '
+                 'c). display_cedarvaluejson: the call-style table is a parameter; scalar arms are atoms. These three mirrors are tied to the '
+                 'Rust by reading (file + function named in each mirror header) and by the malformed-input stream, not by a request stream',
                  'binary_relation / binary_arith are public and panic when called directly with an operator outside their documented contract '
                  '(binary_relation_panics_iff, binary_arith_panics_iff; 3183 such calls in the quick stream, all answered `panic` by the mirror '
                  'too); the evaluator never does (no_panic_binary_dispatch). Recorded as a documented precondition of an internal helper, not as a finding',
@@ -70,7 +86,11 @@ TEXT = ('Lean theorems that the panic sites kept explicit in the mirrors are unr
  'cannot fail; the `unreachable!()` of `FromIterator<Value> for Set` is never taken and the built set satisfies FastRepr; the three '
  '`unreachable!` arms behind the evaluator\'s binary-operator dispatch are never taken (the dispatch equals the one-level table of the C01 model) '
  'while the public helpers binary_relation/binary_arith panic exactly outside their contract; every callback range of Unescape::unescape is '
- 'ordered, in bounds and on char boundaries, so `&bytes[range]` in to_pattern and `&input[range]` in Display for UnescapeError cannot panic. Under '
+ 'ordered, in bounds and on char boundaries, so `&bytes[range]` in to_pattern and `&input[range]` in Display for UnescapeError cannot panic; the formatter\'s remove_empty_lines '
+ 'never slices out of range / inverted / inside a char and terminates, for ALL regex oracles satisfying the stated find_at contract (and non-empty '
+ 'matches); typecheck_extension and the four validate_{ip,decimal,datetime,duration}_string checks it calls even after recording a wrong argument '
+ 'count cannot panic for ANY argument count (the exprs[0] form would, exactly on []); display_cedarvaluejson reaches neither args[0], &args[1..] '
+ 'nor the len()-1 underflows for any JSON value (the control flow before /repo commit f169b51 does, on a zero-argument method-style call). Under '
  'a named invariant: `Expr::record(..).expect(..)` in the Record arm of both evaluators (keys of the record expression pairwise distinct); the '
  'PolicySet panic! sites (C08 invariant, cited). PartialResponse: no accessor panics iff no residual keeps a template slot - and that DOES happen '
  '(theorem partial_response_panic_reachable = known finding C13-residual-slot-panic); definitely_satisfied/must_be_determining never panic. '
@@ -79,7 +99,7 @@ TEXT = ('Lean theorems that the panic sites kept explicit in the mirrors are unr
  'answered by their site-explicit mirrors. Every other text/JSON/bytes entry point (policies, templates, expressions, both schema syntaxes, entities, contexts, EST, protobuf, FFI '
  'JSON) and every pipeline parse -> {print, to_json, format, validate, authorize, link, encode} plus rendering of every error/warning is exercised '
  'by a malformed-input stream in child processes under catch_unwind.',
- 'PARTIAL BY DESIGN: the theorems cover only the mirrored components (nine groups of sites, listed in the header of Thm/C20.lean). For all unmodelled entry points (parser, CST->AST, error rendering, '
+ 'PARTIAL BY DESIGN: the theorems cover only the mirrored components (twelve groups of sites, listed in the header of Thm/C20.lean). For all unmodelled entry points (parser, CST->AST, error rendering, '
  "schema code, EST, protobuf, FFI, formatter, validator, authorizer glue) the evidence is 'no panic on the explored inputs' — a count per entry "
  'point (evidence coverage.distribution: ep.<entry point>.ok / .err, epgroup.<group>.inputs, pipeline.<stage>, render.*), NOT a theorem; nesting '
  'depth <= 48; aborts/hangs are caught per child process')
